@@ -113,7 +113,7 @@ def run_phase(chk, name, harness, cases, id_prefixes, prec="d", vendor=False, id
         if verdict == "unsat": extra_dis += 1
         else: chk.inconclusive.append("obligation %s case %s path %s: z3 unknown, cvc5 %s" % (u.get("id"), u.get("case"), u.get("path"), verdict))
     for u in myunk[48:]: chk.inconclusive.append("obligation %s case %s: z3 unknown (not rechecked)" % (u.get("id"), u.get("case")))
-    discharged += extra_dis
+    discharged = min(obligations, discharged + extra_dis)
 
     # ---- crashes / events
     if st["crashes"]:
